@@ -437,6 +437,17 @@ br_ssl_engine_set_buffers_bidi(br_ssl_engine_context *rc,
 			}
 		}
 		if (u == 8) {
+			/*
+			 * Buffers are too small. They are forgotten, so
+			 * that the context reset that must follow this
+			 * call (and which re-enters this function with
+			 * NULL buffers) fails as well, instead of
+			 * reviving the engine over undersized buffers.
+			 */
+			rc->ibuf = NULL;
+			rc->ibuf_len = 0;
+			rc->obuf = NULL;
+			rc->obuf_len = 0;
 			br_ssl_engine_fail(rc, BR_ERR_BAD_PARAM);
 			return;
 		} else if (u == 13) {
